@@ -2,13 +2,13 @@
 # tools/try_copy.sh <patch.diff> <Cnn>... : like try_mutant.sh but on a scratch worktree (/tmp/tryrepo), /repo stays untouched.
 P=$(realpath "$1"); shift
 cd /verif
-WT=/tmp/tryrepo
+WT=/tmp/tryrepo_$$
 git -C /repo worktree remove --force $WT >/dev/null 2>&1
 git -C /repo worktree add -q --detach $WT HEAD || exit 9
 trap 'git -C /repo worktree remove --force $WT >/dev/null 2>&1' EXIT
 git -C $WT apply "$P" || { echo "patch does not apply"; exit 8; }
 export QSTRADER_ROOT=$WT PYTHONPATH=$WT
 for prop in "$@"; do
-  ./check "$prop" --tier "${TIER:-quick}" > /tmp/w/copy_$prop.out 2>&1; rc=$?
-  echo "== $prop exit=$rc"; grep -E "^(VIOLATION|  undecided|  CHECKER|  CANARY)" /tmp/w/copy_$prop.out | cut -c1-260 | head -${LINES_MAX:-6}; grep "tier=" /tmp/w/copy_$prop.out | cut -c1-220
+  ./check "$prop" --tier "${TIER:-quick}" > /tmp/w/copy_$$_$prop.out 2>&1; rc=$?
+  echo "== $prop exit=$rc"; grep -E "^(VIOLATION|  undecided|  CHECKER|  CANARY)" /tmp/w/copy_$$_$prop.out | cut -c1-260 | head -${LINES_MAX:-6}; grep "tier=" /tmp/w/copy_$$_$prop.out | cut -c1-220
 done
